@@ -528,6 +528,12 @@ def B.publish (b : B) (r : PubReq) : B :=
           let dupl := r.qos == 2 && s.unack.contains r.pid
           let s := if r.qos == 2 && !dupl then { s with unack := s.unack ++ [r.pid] } else s
           let b := b.setSess s
+          -- a retransmission of a PUBLISH still awaiting PUBREL gives back the quota unit readLoop took for it
+          let b := if dupl && c.v == 5 then
+              (match b.cli? r.conn with
+               | some c' => b.setCli { c' with quota := min (c'.quota + 1) b.cfg.recvMax }
+               | none => b)
+            else b
           -- the retained store is updated next to `deliverMessage` (not for a duplicate QoS 2 PUBLISH)
           let b := if r.retain && !dupl then
               (if r.plen == 0 then { b with retained := b.retained.filter (·.1 != r.topic) }
